@@ -1334,6 +1334,7 @@ namespace hgraph
             // already ran this cycle). Unevaluated children pull future schedules up to
             // this reduce node.
             const std::size_t start_candidate = resuming ? storage.resume_candidate_plus_one - 1 : 0;
+            DateTime          earliest_future = MAX_DT;
             for (std::size_t candidate = start_candidate;
                  candidate < storage.evaluation_positions.size(); ++candidate)
             {
@@ -1357,8 +1358,14 @@ namespace hgraph
                 {
                     storage.has_future_combiner_schedule = true;
                     view.graph().schedule_node(view.node_index(), next);
+                    earliest_future = std::min(earliest_future, next);
                 }
             }
+            // This node's graph slot holds ONE time. A combiner evaluated later in
+            // this pass notifies its parent combiner at the current time, which
+            // pushes this node at NOW and overwrites a deadline armed above. Re-arm
+            // the earliest pending combiner deadline once the pass is complete.
+            if (earliest_future != MAX_DT) { view.graph().schedule_node(view.node_index(), earliest_future); }
             storage.resume_candidate_plus_one = 0;
             storage.evaluation_positions.clear();
             finish_reduce_publication(storage, evaluation_time);
